@@ -289,14 +289,14 @@ def classifier_word(star, name, num, pl):
     return Word(("*" if star else "") + name + (num or "") + ((":" + ",".join(pl)) if pl else ""), True)
 
 
-def lean_classifier(word, star, name, num, pl, name_cls):
+def lean_classifier(word, star, name, num, pl, name_cls, star_cls="*"):
     """split the laid-out (re-cased) classifier word back into its parts"""
     o = word.o
     i = 1 if star else 0
     nm = o[i : i + len(name)]
     rest = o[i + len(name) + len(num or "") :]
     parts = rest[1:].split(",") if rest else []
-    return {"star": bool(star), "name": nm, "cls": name_cls, "number": num, "particles": parts}
+    return {"star": bool(star), "starCls": star_cls, "name": nm, "cls": name_cls, "number": num, "particles": parts}
 
 
 class Built:
@@ -530,7 +530,7 @@ def build(spec, tables):
             def lean():
                 return {
                     "lead": lead.lean(),
-                    "classifier": lean_classifier(cw, spec.get("star"), name, spec.get("num"), pl, name_cls),
+                    "classifier": lean_classifier(cw, spec.get("star"), name, spec.get("num"), pl, name_cls, "PARTICLE_SPECIAL"),
                     "g0": g0.lean(),
                     "body": lean_body(),
                 }
@@ -742,6 +742,13 @@ def gen_geom(rng, surfs, cells, depth=0, level=2):
     return ["p", inner]
 
 
+def _transform_entries(rng, n):
+    es = gen_entries(rng, min(n, 12), shortcuts="", p_short=0)
+    if n == 13:
+        es.append(["real", rng.choice(["1", "-1"])])
+    return es
+
+
 CELL_KEYS_SIMPLE = ["tmp", "pwt", "cosy", "bflcl", "nonu"]
 CELL_KEYS_PL = ["ext", "fcl", "elpt", "unc"]
 CELL_KEYS_IDX_PL = ["wwn", "dxc"]
@@ -749,7 +756,7 @@ CELL_KEYS_IDX_PL = ["wwn", "dxc"]
 
 def gen_pl(rng, particles, n=None):
     n = n or rng.choice([1, 1, 1, 2, 3])
-    return rng.sample(particles, n)
+    return rng.sample(particles, min(n, len(particles)))
 
 
 def gen_cell_param(rng, key, tables, ctx):
@@ -773,7 +780,7 @@ def gen_cell_param(rng, key, tables, ctx):
             return {"key": "fill", "star": False, "val": ["numsParen", [["real", u]], [["real", str(rng.choice(ctx["transforms"]))]]]}
         if r < 0.75:
             n = rng.choice([3, 9, 12, 13])
-            return {"key": "fill", "star": star, "val": ["numsParen", [["real", u]], gen_entries(rng, n, shortcuts="", p_short=0)]}
+            return {"key": "fill", "star": star, "val": ["numsParen", [["real", u]], _transform_entries(rng, n)]}
         rs = [[str(rng.randint(-2, 0)), str(rng.randint(0, 2))] for _ in range(3)]
         if rng.random() < 0.5:
             rs[rng.randrange(3)] = ["0", "0"]
@@ -788,7 +795,7 @@ def gen_cell_param(rng, key, tables, ctx):
         star = rng.random() < 0.3
         if rng.random() < 0.4:
             return {"key": "trcl", "star": False, "val": one(str(rng.choice(ctx["transforms"])))}
-        return {"key": "trcl", "star": star, "val": ["paren", gen_entries(rng, rng.choice([3, 9, 12, 13]), shortcuts="", p_short=0)]}
+        return {"key": "trcl", "star": star, "val": ["paren", _transform_entries(rng, rng.choice([3, 9, 12, 13]))]}
     if key in CELL_KEYS_SIMPLE:
         idx = str(rng.randint(1, 9)) if rng.random() < 0.4 else None
         return {"key": key, "idx": idx, "val": one(gen_real(rng, nonneg=True, small=True))}
@@ -930,7 +937,7 @@ def gen_data(rng, tables, which=None, ctx=None):
         es = gen_entries(rng, rng.randint(1, 12), shortcuts="RMI", jumps=name in ("sd", "fm"), nonneg=name not in ("fm",))
         return {"kind": "data", "name": name, "num": str(rng.randint(1, 999)), "body": ["numbers", None, es]}
     if k == "fs":
-        return {"kind": "data", "name": "fs", "num": str(rng.randint(1, 999)), "body": ["fs", [rng.choice(["", "-"]) + gen_int(rng) for _ in range(rng.randint(0, 5))], rng.random() < 0.3]}
+        return {"kind": "data", "name": "fs", "num": str(rng.randint(1, 999)), "body": ["fs", [rng.choice(["", "-"]) + gen_int(rng) for _ in range(rng.randint(1, 5))], rng.random() < 0.3]}
     if k == "fc":
         return {"kind": "data", "name": "fc", "num": str(rng.randint(1, 999)), "body": ["text", rng.choice(["total flux in the core", "a = (b) $ c", "1 2 3", "imp:n=1"])]}
     if k == "sc":
@@ -1015,6 +1022,8 @@ def rules_of(spec):
             for x in p.get("pl") or []:
                 if x in ("u", "x", "y", "z"):
                     t.append("PL:keyword-letter")
+                if x == "c":
+                    t.append("PL:letter-c")
             for es in ([v[1]] if v[0] in ("nums", "paren") else [v[1], v[2]] if v[0] == "numsParen" else [v[2]]):
                 for e in es:
                     t.extend(x for x in entry_rule(e) if x != "Entry:real")
@@ -1038,6 +1047,8 @@ def rules_of(spec):
         for x in spec.get("pl") or []:
             if x in ("u", "x", "y", "z"):
                 t.append("PL:keyword-letter")
+            if x == "c":
+                t.append("PL:letter-c")
         if b[0] in ("numbers", "numbers_opt"):
             if b[1]:
                 t.append("Data:keyword-" + b[1] if b[0] == "numbers" else "Data:option-letter")
@@ -1050,6 +1061,8 @@ def rules_of(spec):
                 t.append("Zaid:lib" if "." in z else "Zaid:bare")
                 if len(z.split(".")[-1]) == 5 and "." in z:
                     t.append("Zaid:3digit-lib")
+            if len({"." in z for z, _ in b[1]}) == 2:
+                t.append("Zaid:mixed")
             t.append("Material:mass" if b[1][0][1].startswith("-") else "Material:atom")
             for key, val in b[2]:
                 t.append("MatParam:" + key)
@@ -1059,6 +1072,8 @@ def rules_of(spec):
         elif b[0] == "mode":
             for p in b[1]:
                 t.append("Mode:particle" + ("-keyword-letter" if p in ("u", "x", "y", "z") else ""))
+                if p == "c":
+                    t.append("PL:letter-c")
         elif b[0] == "tally":
             for it in b[1]:
                 t.append("TallyBins:" + ("number" if it[0] == "n" else "group"))
@@ -1087,6 +1102,13 @@ def _simpler_entries(es, fixed_arity):
             if len(es) > 1:
                 out.append(es[:i] + es[i + 1 :])
     for i, e in enumerate(es):
+        if e[0] in ("rep", "mul") and e[1] not in ("1", "2"):
+            out.append(es[:i] + [[e[0], "2", e[2]]] + es[i + 1 :])
+        if e[0] == "mul" and e[2] not in ("2", "0.5") :
+            out.append(es[:i] + [["mul", e[1], "2" if __import__("re").fullmatch(r"[+-]?\d+", e[2]) else "0.5"]] + es[i + 1 :])
+        if e[0] == "interp" and (e[1], e[4]) not in (("1", "5"), ("1", "0"), ("5", "1")):
+            b = "0" if parse_real(e[4]) == 0 else "5"
+            out.append(es[:i] + [["interp", "1", e[2], e[3], b]] + es[i + 1 :])
         if e[0] != "real":
             vals = entry_values(e)
             if all(v is not None for v in vals) and e[0] != "interp":
@@ -1115,9 +1137,14 @@ def shrink_candidates(spec):
     out = []
     if k == "cell":
         for i in range(len(spec["params"])):
-            out.append(dict(spec, params=spec["params"][:i] + spec["params"][i + 1 :]))
+            rest = spec["params"][:i] + spec["params"][i + 1 :]
+            if spec["params"][i]["key"] == "fill" and any(p["key"] == "lat" for p in rest):
+                continue  # a lattice cell keeps its FILL (well-formedness of 5.2)
+            out.append(dict(spec, params=rest))
         if spec["mat"] is not None:
             out.append(dict(spec, mat=None))
+            if spec["mat"][1] not in ("1", "-1"):
+                out.append(dict(spec, mat=[spec["mat"][0], "-1" if spec["mat"][1].startswith("-") else "1"]))
         g = spec["geom"]
 
         def subs(g):
@@ -1180,8 +1207,8 @@ def shrink_candidates(spec):
         if spec.get("pl") and len(spec["pl"]) == 1 and spec["pl"] != ["n"]:
             out.append(dict(spec, pl=["n"]))
         if b[0] in ("numbers", "numbers_opt"):
-            fixed = spec["name"] in ("tr",)
-            for es in _simpler_entries(b[2], False):
+            fixed = spec["name"] in ("tr", "ksrc") or (spec["name"] == "f" and b[0] == "numbers")
+            for es in _simpler_entries(b[2], fixed):
                 if es or spec["name"] in ("print", "void", "totnu"):
                     out.append(dict(spec, body=[b[0], b[1], es]))
             if b[0] == "numbers" and b[1]:
